@@ -251,7 +251,6 @@ Lemma avr_bool b : avr (PBool b) = true. Proof. destruct b; reflexivity. Qed.
 Lemma mo_opt_b x : mo (opt_b x) = true. Proof. destruct x as [[|]|]; reflexivity. Qed.
 Lemma mo_opt_s x : mo (opt_s x) = true. Proof. destruct x; reflexivity. Qed.
 Lemma mo_opt_i x : mo (opt_i x) = true. Proof. destruct x; reflexivity. Qed.
-Lemma mo_only_true x : mo (only_true x) = true. Proof. destruct x as [[|]|]; reflexivity. Qed.
 Lemma mo_when b e : avr e = true -> mo (when b e) = true. Proof. intros H. destruct b; [exact H|reflexivity]. Qed.
 Lemma mo_some e : avr e = true -> mo (Some e) = true. Proof. auto. Qed.
 Lemma mo_none : mo None = true. Proof. reflexivity. Qed.
@@ -271,7 +270,6 @@ Ltac mo_solve :=
   | |- mo (opt_b _) = true => apply mo_opt_b
   | |- mo (opt_s _) = true => apply mo_opt_s
   | |- mo (opt_i _) = true => apply mo_opt_i
-  | |- mo (only_true _) = true => apply mo_only_true
   | |- mo None = true => reflexivity
   | |- mo (if _ then None else _) = true => apply mo_if; mo_solve
   | |- mo (when _ _) = true => apply mo_when; mo_solve
@@ -466,8 +464,6 @@ Lemma rt_opt_i x : match x with Some i => can_ident i | None => true end = true 
 Proof. destruct x as [[s [q|]]|]; cbn; intros; try discriminate; reflexivity. Qed.
 Lemma rt_opt_i_truthy x : can_oident x = true -> opt_arg as_ident (opt_i (truthy x)) = Some x.
 Proof. destruct x as [[[|ch s] [q|]]|]; cbn; intros; try discriminate; reflexivity. Qed.
-Lemma rt_only_true d : can_deferrable d = true -> opt_arg as_bool (only_true d) = Some d.
-Proof. destruct d as [[|]|]; cbn; intros; try discriminate; reflexivity. Qed.
 Lemma rt_id i : can_ident i = true -> as_ident (id_ i) = Some i.
 Proof. destruct i as [s [q|]]; cbn; intros; try discriminate; reflexivity. Qed.
 Lemma rt_ids l : forallb can_ident l = true -> mapM as_ident (map id_ l) = Some l.
@@ -597,14 +593,14 @@ Proof.
     intros [= <-]. unfold eval_constraint. cbn [sa_call]. rewrite str_eqb_refl. cbn [obind app].
     kw_eval. rewrite rt_opt_name by assumption. cbn [obind]. lit_cmp. pos_eval. cbn [obind as_list].
     rewrite rt_ids, rt_strs by assumption. cbn [obind].
-    rewrite !rt_opt_s_truthy by assumption. cbn [obind]. rewrite rt_only_true by assumption. cbn [obind].
+    rewrite !rt_opt_s_truthy by assumption. cbn [obind]. rewrite rt_opt_b. cbn [obind].
     destruct ua; reflexivity.
   - repeat (apply andb_true_iff in H; destruct H as [H ?]).
     intros [= <-]. unfold eval_constraint. cbn [sa_call]. rewrite str_eqb_refl. cbn [obind].
     rewrite !kwarg_args by apply no_kw_map_id. cbn [assoc String.eqb Ascii.eqb Bool.eqb andb]. rewrite !opt_id.
     rewrite rt_opt_name by assumption. cbn [obind]. lit_cmp.
     rewrite positionals_app by apply no_kw_map_id. rewrite rt_ids by assumption. cbn [obind].
-    rewrite rt_only_true, rt_opt_s_truthy by assumption. reflexivity.
+    rewrite rt_opt_b, rt_opt_s_truthy by assumption. reflexivity.
   - intros [= <-]. unfold eval_constraint. cbn [sa_call]. rewrite str_eqb_refl. cbn [obind app].
     kw_eval. rewrite rt_opt_name by assumption. cbn [obind]. lit_cmp. pos_eval. reflexivity.
 Qed.
@@ -707,9 +703,9 @@ Proof.
     rewrite rt_ixexprs by assumption. cbn [obind]. rewrite RS. cbn [obind as_bool]. rewrite rt_opt_b.
     destruct unique; [reflexivity|discriminate].
   - ev. rewrite rt_cname by assumption. cbn [obind]. rewrite (rt_id _ Ht). cbn [obind]. rewrite RS. cbn [obind]. rewrite rt_opt_b. reflexivity.
-  - rewrite !andb_true_iff in Ho. destruct Ho as [[[A1 A2] A3] A4].
+  - rewrite !andb_true_iff in Ho. destruct Ho as [[A1 A2] A3].
     ev. rewrite rt_cname by assumption. cbn [obind]. rewrite (rt_id _ Ht). cbn [obind as_list].
-    rewrite rt_ids by assumption. cbn [obind]. rewrite RS. cbn [obind]. rewrite rt_only_true, rt_opt_s_truthy by assumption. reflexivity.
+    rewrite rt_ids by assumption. cbn [obind]. rewrite RS. cbn [obind]. rewrite rt_opt_b, rt_opt_s_truthy by assumption. reflexivity.
   - rewrite !andb_true_iff in Ho. destruct Ho as [[[[A1 A2] A3] A4] A5].
     ev. rewrite rt_cname by assumption. cbn [obind]. rewrite (rt_id _ Ht), (rt_id _ A2). cbn [obind as_list].
     rewrite !rt_ids by assumption. cbn [obind]. rewrite !rt_opt_s. cbn [obind]. rewrite !rt_opt_b. cbn [obind].
@@ -754,9 +750,9 @@ Proof.
     rewrite rt_ixexprs by assumption. cbn [obind as_bool]. rewrite rt_opt_b.
     destruct unique; [reflexivity|discriminate].
   - ev. rewrite rt_cname by assumption. cbn [obind]. rewrite rt_opt_b. reflexivity.
-  - rewrite !andb_true_iff in Ho. destruct Ho as [[[A1 A2] A3] A4].
+  - rewrite !andb_true_iff in Ho. destruct Ho as [[A1 A2] A3].
     ev. rewrite rt_cname by assumption. cbn [obind as_list].
-    rewrite rt_ids by assumption. cbn [obind]. rewrite rt_only_true, rt_opt_s_truthy by assumption. reflexivity.
+    rewrite rt_ids by assumption. cbn [obind]. rewrite rt_opt_b, rt_opt_s_truthy by assumption. reflexivity.
   - rewrite !andb_true_iff in Ho. destruct Ho as [[[[A1 A2] A3] A4] A5].
     ev. rewrite rt_cname by assumption. cbn [obind]. rewrite (rt_id _ A2). cbn [obind as_list].
     rewrite !rt_ids by assumption. cbn [obind]. rewrite !rt_opt_s. cbn [obind]. rewrite !rt_opt_b. cbn [obind].
@@ -1055,7 +1051,6 @@ Qed.
 Lemma mw_opt_b x : mw (opt_b x) = true. Proof. destruct x as [[|]|]; reflexivity. Qed.
 Lemma mw_opt_s x : wf_ostr x = true -> mw (opt_s x) = true. Proof. destruct x; cbn [opt_s option_map mw wf_ostr]; [rewrite wfe_Sr|]; auto. Qed.
 Lemma mw_opt_i x : wf_oid x = true -> mw (opt_i x) = true. Proof. destruct x; cbn [opt_i option_map mw wf_oid]; [rewrite wfe_id|]; auto. Qed.
-Lemma mw_only_true x : mw (only_true x) = true. Proof. destruct x as [[|]|]; reflexivity. Qed.
 Lemma mw_when b e : wfe e = true -> mw (when b e) = true. Proof. intros H. destruct b; [exact H|reflexivity]. Qed.
 Lemma mw_if (b:bool) x : mw x = true -> mw (if b then None else x) = true. Proof. destruct b; auto. Qed.
 Lemma mw_tri {A} (f:A -> pyexpr) (g:A -> bool) t : (forall a, g a = true -> wfe (f a) = true) -> wf_tri g t = true -> mw (tri_v f t) = true.
@@ -1122,7 +1117,6 @@ Section WF.
     | |- mw (opt_s _) = true => apply mw_opt_s; assumption
     | |- mw (opt_i (truthy _)) = true => apply mw_opt_i, truthy_wf; assumption
     | |- mw (opt_i _) = true => apply mw_opt_i; assumption
-    | |- mw (only_true _) = true => apply mw_only_true
     | |- mw None = true => reflexivity
     | |- mw (if _ then None else _) = true => apply mw_if; mw_solve
     | |- mw (when _ _) = true => apply mw_when; mw_solve
